@@ -26,6 +26,6 @@ package floatingip
 
 // walkIPRanges terminates for every list of well-formed ranges (C18: cannot wedge; C08/C20: it
 // enumerates each range once). The measure is taken over the integers.
-//@ func [C20,C18,C08] walkIPRanges
+//@ func [C20,C18,C08] walkIPRanges inline
 //@   requires forall i int :: 0 <= i && i < len(ranges) ==> nets.wfRange(ranges[i])
 //@   loop 1 decreases last - first
